@@ -49,6 +49,7 @@ CONSTANTS
   Code_OnlyLastWeightHooksReleased, \* second release message is overwritten per weight in the DESTROY hooks loop
   Code_InactiveHookNotReleased,     \* a DESTROY hook task whose role is not ACTIVE is neither triggered nor released
   Code_AfterDestroyOverwrites,      \* after_DESTROY hooks replace DESTROY hooks of equal weight in the merged map
+  Code_FirstMessageResent,          \* without DESTROY hooks the second release message is the first one again
   Code_ClaimNotAtomic,              \* reuse: a task is claimed long before it is locked, nothing excludes a second claim
   Code_RetryForgetsLaunched,        \* deployment retry drops the tasks launched by the failed attempt
   Code_InactiveDroppedUnkilled      \* doKillTasks drops tasks whose status is not ACTIVE without a KILL
@@ -177,7 +178,7 @@ Msg1(e) == TasksOfRoles(e, FirstRelRoles(e))
 \* T = hook tasks that were triggered (role ACTIVE in the core's eyes)
 Msg2(e, T) ==
   LET H == wf[e].hooks IN
-  IF WeightsOf(H) = {} THEN Msg1(e)          \* the first message is sent again
+  IF WeightsOf(H) = {} THEN (IF Code_FirstMessageResent THEN Msg1(e) ELSE {})
   ELSE LET cand == IF Code_OnlyLastWeightHooksReleased
                      THEN TasksOfRoles(e, MergedAt(H, MaxW(H)) \cap HookTaskNames)
                      ELSE TasksOfRoles(e, HookTaskRoles(e))
@@ -715,13 +716,27 @@ TaskGone(t) ==
 (* ------------------------------------------------------------------------ *)
 WfChoices == {<<B, H, p>> : B \in BasicChoices, H \in HookChoices, p \in PendChoices}
 
+\* Next explores the loops over tasks that one goroutine runs (lock, append, release, select, send) in one
+\* canonical order (Pick): the steps of one loop commute with each other; the actions themselves accept any
+\* order (the trace specification replays the recorded one). A deployment round launches its tasks at once.
+Pick(S) == CHOOSE x \in S : TRUE
+RECURSIVE Assign(_, _)
+Assign(R, F) == IF R = {} \/ F = {} THEN {}
+                ELSE LET r == Pick(R) f == Pick(F) IN {<<r, f>>} \cup Assign(R \ {r}, F \ {f})
+FreeIds == {t \in TaskIds : tenv[t] = None}
+OneOf(S, A(_)) == S # {} /\ A(Pick(S))
+
 Next ==
   \/ \E e \in Envs :
        \/ \E c \in WfChoices, D \in DetChoices, s \in Scripts : CreateCall(e, c[1], c[2], c[3], D, s)
        \/ CSnap(e) \/ CRefuse(e) \/ CRegister(e) \/ CDeployLock(e)
-       \/ \E t \in TaskIds : Claim(e, t) \/ Lock(e, t) \/ FailUnlock(e, t) \/ RosterAppend(e, t) \/ LockReused(e, t) \/ Unlock(e, t)
-       \/ \E r \in TaskRoleNames : /\ \E u \in TaskIds : tenv[u] = None
-                                     /\ LaunchSet(e, {<<r, CHOOSE t \in TaskIds : tenv[t] = None>>})
+       \/ OneOf({t \in TaskIds : ENABLED Claim(e, t)}, LAMBDA t : Claim(e, t))
+       \/ LET R == Launchable(e) \ RolesLaunchedNow(e) IN
+            apc[e] = "acq" /\ R # {} /\ Cardinality(FreeIds) >= Cardinality(R) /\ LaunchSet(e, Assign(R, FreeIds))
+       \/ OneOf({t \in cur[e] : owner[t] = None /\ ~inRoster[t]}, LAMBDA t : Lock(e, t))
+       \/ OneOf({t \in cur[e] : ~inRoster[t]}, LAMBDA t : RosterAppend(e, t))
+       \/ OneOf(claimed[e], LAMBDA t : LockReused(e, t))
+       \/ OneOf({t \in relq[e] : owner[t] \in {e, None}}, LAMBDA t : Unlock(e, t))
        \/ AcqRetry(e)
        \/ \E ok \in BOOLEAN : CDeployEnd(e, ok) \/ CConfigure(e, ok) \/ CTailGoError(e, ok) \/ XTrans(e, ok) \/ XGoError(e, ok)
        \/ CReplyOk(e) \/ CReplyErr(e)
@@ -734,10 +749,11 @@ Next ==
        \/ \E op \in Ops : ControlCall(e, op)
        \/ XForce(e) \/ XReply(e)
   \/ CleanupCall \/ CleanupReply
-  \/ \E t \in TaskIds :
-       \/ TaskRunning(t) \/ TaskGone(t)
-       \/ \E k \in Killers : KillSend(k, t) \/ \E act \in BOOLEAN : KillSelect(k, t, act)
-  \/ \E k \in Killers : KillBegin(k)
+  \/ \E t \in TaskIds : TaskRunning(t) \/ TaskGone(t)
+  \/ \E k \in Killers :
+       \/ KillBegin(k)
+       \/ OneOf(ksel[k], LAMBDA t : \E act \in BOOLEAN : KillSelect(k, t, act))
+       \/ OneOf(kq[k], LAMBDA t : KillSend(k, t))
 
 Spec == Init /\ [][Next]_vars
 
@@ -748,8 +764,11 @@ TypeOK ==
   /\ AllKq \subseteq TaskIds
 
 (* ---- C04 ---- *)
-\* no task is a task of two listed environments (GetEnvironments lists it twice), and the owner is unique by construction
-OneOwner == \A e1, e2 \in listed : e1 # e2 => EnvTasks(e1) \cap EnvTasks(e2) = {}
+\* owner is a function (one owner at most); what must hold on top of that: every task a deployed environment
+\* that is not being torn down counts as its own (role.Task, what GetEnvironments lists) is owned by it, hence
+\* by no other environment
+Settled(e) == e \in listed /\ tdp[e] = "idle" /\ apc[e] = "done" /\ cpc[e] \in {"deployed", "ok", "ret", "tail"}
+OneOwner == \A e \in Envs : Settled(e) => \A t \in EnvTasks(e) : owner[t] = e
 \* live environments have disjoint detector sets
 DetExclusive == \A e1, e2 \in listed : e1 # e2 => dets[e1] \cap dets[e2] = {}
 \* a KILL is only sent for an unowned task; a transition of e commands only tasks owned by e;
